@@ -132,9 +132,48 @@ def run(rng, tier, model_ok):
                 os.makedirs(d2)
                 dsess.append(("second directory#%d first build" % i,) + session(exe, lines_k1, make_env(d2)))
                 dsess.append(("second directory#%d reopen" % i,) + session(exe, lines_k1, make_env(d2)))
+        # in-memory and on-disk sessions taking turns on ONE data directory (an in-memory session is given the same directory and must
+        # neither depend on it nor disturb it), also after a first on-disk build that was killed half-way
+        def stale(d):
+            mp2 = os.path.join(d, "facts", "meta.json")
+            try:
+                m2 = json.load(open(mp2))
+                json.dump(dict(m2, database_hash="stale"), open(mp2, "w"))
+            except Exception:
+                pass
+
+        def mixed_chain(name):
+            d = os.path.join(root, name)
+            os.makedirs(d)
+            out = []
+            out.append(("%s: memory on an absent directory" % name,) + session(exe, lines_k1, make_env(d, memory=True)))
+            out.append(("%s: disk first build after it" % name,) + session(exe, lines_k1, make_env(d)))
+            out.append(("%s: memory next to a current index" % name,) + session(exe, lines_k1, make_env(d, memory=True), perm(0)))
+            out.append(("%s: disk reopen after it" % name,) + session(exe, lines_k1, make_env(d)))
+            stale(d)
+            out.append(("%s: memory next to a stale index" % name,) + session(exe, lines_k1, make_env(d, memory=True)))
+            out.append(("%s: disk after memory next to a stale index" % name,) + session(exe, lines_k1, make_env(d)))
+            out.append(("%s: disk reopen after that" % name,) + session(exe, lines_k1, make_env(d), perm(0)))
+            return out
+
+        def killed_chain(k):
+            name = "killed%d" % k
+            d = os.path.join(root, name)
+            os.makedirs(d)
+            env = make_env(d)
+            env["ANYTHING_VERIF_CRASH_AT"] = str(k)
+            subprocess.run([exe], input=lines_k1[0] + "\n", env=env, capture_output=True, text=True, timeout=900)
+            out = []
+            out.append(("%s: memory after a first build killed at step %d" % (name, k),) + session(exe, lines_k1, make_env(d, memory=True)))
+            out.append(("%s: disk after that" % name,) + session(exe, lines_k1, make_env(d)))
+            out.append(("%s: disk reopen after that" % name,) + session(exe, lines_k1, make_env(d), perm(0)))
+            return out
+        chains = [ex.submit(mixed_chain, "mixed")] + [ex.submit(killed_chain, k) for k in ((3, 6, 8, 10) if tier == "quick" else range(1, 11))]
         for label, f in futs:
             rc, out = f.result()
             sessions.append((label, rc, out))
+        for f in chains:
+            dsess += f.result()
     sessions += dsess
     failures, mismatches, samples = [], [], []
     nq = len(qs)
